@@ -232,7 +232,12 @@ func build(tier string) []*vexp.Scenario {
 						continue // reaction never triggers
 					}
 					name := fmt.Sprintf("2t/%s|%s/react=%s/initPaused=%v", a, b, re, ip)
-					out = append(out, scenario(name, []string{a, b}, re, ip, b2))
+					bs := b2
+					if a == "PuR" && b == "PuR" {
+						// the pair in which both senders pause, send and resume: one bound deeper in every tier
+						bs = []int{0, 1, 2, 3}
+					}
+					out = append(out, scenario(name, []string{a, b}, re, ip, bs))
 				}
 			}
 		}
